@@ -130,7 +130,7 @@ def obligations(tier):
             add("monotonicity_prox", f"n={n},decreasing={decreasing}", dict(v=(n,)), lambda I, decreasing=decreasing: px.monotonicity_prox(I["v"], decreasing=decreasing), claims_iso,
                 dict(n=n, decreasing=decreasing), "exact isotonic regression (KKT)")
         # ------------------------------------------------------------------ hard thresholding / normalised sparsity / max-normalisation
-        for k in range(1, n + 1):
+        for k in range(0, n + 1):     # k = 0: the only 0-sparse point is 0
             def claims_hard(I, out, k=k):
                 v, x = _vec(I), list(D.lift_array(out).ravel())
                 nz = d_sum([d_ite(d_not(d_eq(xi, 0)), 1, 0) for xi in x])
@@ -170,6 +170,11 @@ def obligations(tier):
                 res.append((f"column {j}: KKT", d_and(d_eq(lam[-1], 0), *[d_le(0, lam[k]) for k in range(len(xc) - 1)], *[d_implies(d_lt(0, lam[k]), d_eq(xc[k], xc[k + 1])) for k in range(len(xc) - 1)])))
             return res
         add("monotonicity_prox", f"matrix {n}x{c}", dict(v=(n, c)), lambda I: px.monotonicity_prox(I["v"]), claims_iso_m, dict(n=n, columns=c), "column-wise isotonic regression")
+        def claims_iso_dec(I, out):    # decreasing variant: every column, read bottom-up, is the isotonic fit of ITS OWN column read bottom-up
+            rev_in = dict(I, v=D.lift_array(I["v"])[::-1, :])
+            return claims_iso_m(rev_in, D.lift_array(out)[::-1, :])
+        add("monotonicity_prox", f"matrix {n}x{c},decreasing=True", dict(v=(n, c)), lambda I: px.monotonicity_prox(I["v"], decreasing=True), claims_iso_dec, dict(n=n, columns=c, decreasing=True),
+            "column-wise isotonic regression")
     # ---------------------------------------------------------------------- unimodal regression (small sizes: cost comparisons are quadratic)
     for n in (2, 3):
         def claims_uni(I, out):
@@ -179,6 +184,21 @@ def obligations(tier):
             feas = d_or(*[d_and(*[d_le(x[i], x[i + 1]) for i in range(p)], *[d_le(x[i + 1], x[i]) for i in range(p, n_ - 1)]) for p in range(n_)])
             return [("feasible: unimodal", feas)]
         add("unimodality_prox", f"n={n}", dict(v=(n,)), lambda I: px.unimodality_prox(I["v"]), claims_uni, dict(n=n), "unimodal output (feasibility)")
+    # ---------------------------------------------------------------------- proximal_operator with per-mode specifications: mode `order` gets ITS parameter, whatever
+    # the form (scalar, list with holes, dictionary in any key order) - the result is the operator applied with that parameter (entrywise equal terms)
+    for kind, direct, pa, pb in (("l1_reg", lambda v, t: px.soft_thresholding(v, t), 0.3, 1.5), ("l2_square_reg", lambda v, t: px.l2_square_prox(v, t), 0.2, 0.9),
+                                 ("simplex", lambda v, t: px.simplex_prox(v, t), 1.5, 0.7), ("soft_sparsity", lambda v, t: px.soft_sparsity_prox(v, t), 1.2, 0.4)):
+        forms = {"dict, keys ascending": {0: pa, 2: pb}, "dict, keys descending": {2: pb, 0: pa}, "list with a hole": [pa, None, pb]}
+        for fname, spec in forms.items():
+            for order, want in ((0, pa), (1, None), (2, pb)):
+                def call(I, kind=kind, spec=spec, order=order):
+                    return px.proximal_operator(I["v"], n_const=3, order=order, **{kind: spec})
+                def claims(I, out, direct=direct, want=want):
+                    ref = D.lift_array(I["v"]) if want is None else D.lift_array(direct(I["v"], want))
+                    got = D.lift_array(out)
+                    return [("the result is the operator applied with the parameter requested for this mode (the input itself for an unconstrained mode)",
+                             d_and(*[d_eq(g, r) for g, r in zip(got.ravel(), ref.ravel())]) if got.shape == ref.shape else False)]
+                add(f"proximal_operator({kind})", f"{fname},mode={order}", dict(v=(2, 2)), call, claims, dict(operator=kind, form=fname, mode=order), "per-mode parameter reaches the operator", check_domain=False)
     # ---------------------------------------------------------------------- a factor matrix keeps its shape under every operator reachable through
     # proximal_operator (single-column matrices included: constrained CP at rank 1 hands those over), for all values
     ops = dict(non_negative=True, l1_reg=0.3, l2_reg=0.4, l2_square_reg=0.2, unimodality=True, normalize=True, simplex=1.5, normalized_sparsity=1, soft_sparsity=1.2,
